@@ -1,9 +1,20 @@
 // ---- shared specification layer for Graph<T, A> (hand-written; DESIGN.md 2.2) ----
 
-// A2: the key type obeys vstd's hash-map key model (Hash/Eq are lawful and agree with spec equality)
-pub open spec fn key_model_ok<T>() -> bool {
+// A2 (stated as a precondition, not an axiom): the node-name type obeys vstd's hash-map key model, its `==`
+// is spec equality and its comparison operators follow one partial_cmp function
+pub open spec fn key_model_ok<T: Eq + PartialOrd>() -> bool {
     &&& vstd::std_specs::hash::obeys_key_model::<T>()
     &&& vstd::std_specs::hash::obeys_key_model::<(T, T)>()
+    &&& T::obeys_eq_spec()
+    &&& forall|a: T, b: T| #[trigger] a.eq_spec(&b) == (a == b)
+    &&& T::obeys_partial_cmp_spec()
+}
+
+pub open spec fn is_err_kind<V>(r: Result<V, Error>, k: ErrorKind) -> bool {
+    match r {
+        Err(e) => e.kind == k,
+        Ok(_) => false,
+    }
 }
 
 // one empty row appended, existing rows untouched
@@ -13,7 +24,7 @@ pub open spec fn rows_extended(old_rows: Seq<Vec<AdjacentNode>>, new_rows: Seq<V
     &&& new_rows[old_rows.len() as int]@.len() == 0
 }
 
-impl<T: PartialOrd + Send + Sync, A: Clone> Graph<T, A> {
+impl<T: Eq + PartialOrd + Send + Sync, A: Clone> Graph<T, A> {
     pub open spec fn n(&self) -> nat {
         self.nodes_vec@.len()
     }
@@ -32,5 +43,43 @@ impl<T: PartialOrd + Send + Sync, A: Clone> Graph<T, A> {
         &&& self.predecessors_vec@.len() == self.n()
         &&& forall|i: usize| #[trigger] self.successors_map@.contains_key(i) <==> i < self.n()
         &&& forall|i: usize| #[trigger] self.predecessors_map@.contains_key(i) <==> i < self.n()
+    }
+
+    // ---- position-keyed edge store ----
+    pub open spec fn has_pair(&self, u: usize, v: usize) -> bool {
+        self.edges_map@.contains_key(u) && self.edges_map@[u]@.contains_key(v)
+    }
+
+    pub open spec fn pair_list(&self, u: usize, v: usize) -> Seq<Arc<Edge<T, A>>> {
+        self.edges_map@[u]@[v]@
+    }
+
+    // canonical key of the pair (u, v): undirected graphs keep the smaller position first
+    pub open spec fn canon(&self, u: usize, v: usize) -> (usize, usize) {
+        if !self.specs.directed && u > v { (v, u) } else { (u, v) }
+    }
+
+    pub open spec fn name_of(&self, i: usize) -> T {
+        self.nodes_vec@[i as int].name
+    }
+
+    // the stored edge names the nodes at positions (u, v); undirected edges are stored name-ordered
+    pub open spec fn edge_fits(&self, e: Edge<T, A>, u: usize, v: usize) -> bool {
+        if self.specs.directed {
+            e.u == self.name_of(u) && e.v == self.name_of(v)
+        } else {
+            &&& (e.u == self.name_of(u) && e.v == self.name_of(v)) || (e.u == self.name_of(v) && e.v == self.name_of(u))
+            &&& !tgt(e.u, e.v)
+        }
+    }
+
+    pub open spec fn wf_estore(&self) -> bool {
+        forall|u: usize, v: usize| #[trigger] self.has_pair(u, v) ==> {
+            &&& u < self.n() && v < self.n()
+            &&& self.pair_list(u, v).len() > 0
+            &&& (!self.specs.multi_edges ==> self.pair_list(u, v).len() == 1)
+            &&& (!self.specs.directed ==> u <= v)
+            &&& forall|k: int| 0 <= k < self.pair_list(u, v).len() ==> self.edge_fits(*#[trigger] self.pair_list(u, v)[k], u, v)
+        }
     }
 }
